@@ -124,9 +124,12 @@ def shard_identity(seed, count):
                 it = ((cond >> 1) << 5) | ((cond & 1) << 4) | rng.choice((0b1000, 0b0100, 0b1100, 0b0010, 0b1010, 0b0110, 0b0001, 0b1111))
             code = e1.enc_thumb(w, tn == 't32') + b'\x00\xbf\x00\xbf'
         nzcv = failing_flags(rng, cond)
-        case = gen.step_case(rng, cfgname, thumb, code, it=it, e=0, mpu=False, mmu=False)
+        hooked = rng.random() < 0.5
+        case = gen.step_case(rng, cfgname, thumb, code, it=it, e=0, mpu=False, mmu=False, hooked=hooked)
         st = case['state']
         st['cpsr'] = (st['cpsr'] & 0x0FFFFFFF) | (nzcv << 28)
+        if hooked and rng.random() < 0.7:
+            st['excl'] = (gen.DATA[0] + 4 * rng.randrange(0, 0x20), rng.choice((1, 2, 4, 8)))     # an outstanding reservation: a failed CLREX / STREX leaves it alone
         if name.startswith(('SDIV', 'UDIV')):
             # the one execute-time trap that is not an UNDEFINED encoding: divide by zero with SCTLR.DZ on the R profile
             st['sctlr'] = st.get('sctlr', 0) | (rng.getrandbits(1) << 19)
@@ -135,7 +138,7 @@ def shard_identity(seed, count):
                 st[gen.bank_key(fm, gen.MODE_NAME[st['cpsr'] & 31])] = 0
         # legality through the reference decode only (no reference semantics are used for the verdict)
         cpu, pre, posts, excs = e1.run(case)
-        M = Machine(pre, [tuple(m) for m in case['mems']], diff.full_cfg(case['cfg']))
+        M = Machine(pre, [tuple(m) for m in case['mems']], diff.full_cfg(case['cfg']), case.get('hooked', False))
         try:
             w2, nbits = rstep.fetch(M)
             M.word = w2
